@@ -25,7 +25,7 @@ def alg_cases(rng, tier):
         g, style = gen_graph(rng, maxn if rng.random() < 0.9 else maxn + 10)
         gt = gen.graph_tokens(g)
         for alg in ALGS:
-            ty = "I" if (i % 3 == ALGS.index(alg)) and 2 * sum(w for _, _, w in g[1]) < 2 ** 31 - 1 else "D"
+            ty = "I" if (i % 3 == ALGS.index(alg)) and gen.int_domain_ok(g) else "D"
             scale = 0 if ty == "I" else rng.choice([0, 0, -3, 5])
             cases.append(("A %s %s %d %s" % (alg, ty, scale, gt), g, style))
     return cases
@@ -70,7 +70,7 @@ def bidir_cases(rng, tier):
                 if s == t and spos == tpos: continue
             tot = sum(w for _, _, w in es)
             lim = "-" if rng.random() < 0.4 else str(rng.randint(1, max(2, tot // 2 + 2)))
-            ty = "D" if rng.random() < 0.7 or 2 * tot >= 2 ** 31 - 1 else "I"
+            ty = "D" if rng.random() < 0.7 or not gen.int_domain_ok(g) else "I"
             cases.append("B %s %d %d %d %d %d %s %d %s %d %s %s" % (ty, uh, s, spos, t, tpos, lim, len(sg), " ".join(map(str, sg)),
                                                                  len(hd), " ".join(map(str, hd)), gen.graph_tokens(g)))
     return cases[:nb]
